@@ -90,6 +90,45 @@ def calcRow (init : List F) (groups : List (List F × List F)) (sidx : Nat := 0)
 
 end
 
+/-! #### `DetSigYieldService.construct_detsigyield_array`: which builder makes `Y_jk`
+
+A source hypothesis group carries a list of detector-signal-yield builders: one for all datasets, or
+one per dataset.  Builders are identified by a number (Python: object identity / hash). -/
+
+section builders
+
+/-- the builder group `g` uses for dataset `j`: `builder_list[0] if len(builder_list) == 1 else
+builder_list[ds_idx]`; any other length is the `ValueError` of `get_builder_to_shgidxs_dict` -/
+def builderFor (J : Nat) (bl : List Nat) (j : Nat) : Option Nat :=
+  if bl.length = 1 then bl[0]? else if bl.length = J then bl[j]? else none
+
+/-- `builder_shgidxs_dict[builder].append(g)` on a `defaultdict(list)` (insertion-ordered) -/
+def insertB (d : List (Nat × List Nat)) (b g : Nat) : List (Nat × List Nat) :=
+  if d.any (fun e => e.1 == b) then d.map (fun e => if e.1 == b then (e.1, e.2 ++ [g]) else e)
+  else d ++ [(b, [g])]
+
+/-- `get_builder_to_shgidxs_dict(ds_idx)`, given the builder `bs[g]` of every group for that dataset:
+groups sharing a builder are collected so that they can be constructed together -/
+def builderDict (bs : List Nat) : List (Nat × List Nat) :=
+  (List.zip bs (List.range bs.length)).foldl (fun d p => insertB d p.1 p.2) []
+
+/-- the builder whose product ends up in `detsigyield_arr[j, g]` after the loop over the dictionary -/
+def rowCode (bs : List Nat) (g : Nat) : Option Nat :=
+  ((builderDict bs).find? (fun e => e.2.contains g)).map (fun e => e.1)
+
+/-- `construct_detsigyield_array` as coded (dictionary computed for **each** dataset): for every
+dataset the builder that fills each group's slot; `none` = `ValueError` -/
+def constructArrCode (J : Nat) (groups : List (List Nat)) : Option (List (List (Option Nat))) :=
+  (List.range J).mapM (fun j =>
+    (groups.mapM (fun bl => builderFor J bl j)).map (fun bs =>
+      (List.range groups.length).map (rowCode bs)))
+
+/-- the specification: slot `(j, g)` is filled by the builder group `g` designates for dataset `j` -/
+def constructArrSpec (J : Nat) (groups : List (List Nat)) : Option (List (List Nat)) :=
+  (List.range J).mapM (fun j => groups.mapM (fun bl => builderFor J bl j))
+
+end builders
+
 section
 variable {F : Type} [Add F] [Sub F] [Mul F] [Div F] [Neg F] [LT F] [DecidableLT F]
   [OfNat F 0] [OfNat F 1] [OfScientific F] [Transc F]
